@@ -819,7 +819,38 @@ func (in *Interp) symLoad(p SymPtr) Value {
 			}
 		}
 	}
+	// memoise look-ups in constant tables: rebuilding the ite chain allocates a
+	// lot even though hash-consing returns the same term
+	var mk loadKey
+	memo := false
+	if len(p.base) <= 256 {
+		h := uint64(1469598103934665603)
+		okc := true
+		for _, e := range p.base {
+			t, isT := e.(*Term)
+			if !isT || !t.IsConst() || t.w > 64 {
+				okc = false
+				break
+			}
+			h = (h ^ t.c ^ uint64(t.w)<<56) * 1099511628211
+		}
+		if okc {
+			mk = loadKey{h: h, n: len(p.base), idx: p.idx}
+			memo = true
+			if r, ok := in.tt.loadMemo[mk]; ok {
+				return r
+			}
+		}
+	}
 	v := in.symLoad1(p)
+	if memo {
+		if r, ok := v.(*Term); ok {
+			if in.tt.loadMemo == nil {
+				in.tt.loadMemo = map[loadKey]*Term{}
+			}
+			in.tt.loadMemo[mk] = r
+		}
+	}
 	// remember look-ups in injective constant tables (hex digits, base64
 	// alphabets): two such look-ups are equal iff their indexes are
 	if r, ok := v.(*Term); ok && !r.IsConst() && len(p.base) <= 256 {
